@@ -1249,6 +1249,10 @@ def run(ctx, oracle_only=False):
     if cmp_:
         stream_malformed(ctx, ctx.n(60, 400))
         drain(ctx)
+        # "construction": the constructor itself (Model/Construct.lean) against the real Atoms(**kwargs), valid and
+        # malformed keyword sets, with its own independent oracle on every constructed object
+        from .. import ext_construct
+        ext_construct.run_stream(ctx)
 
 
 def search(ctx):
